@@ -105,12 +105,14 @@ CLAIMS = {
         text="General theorems for the arithmetic builders (wthh = hh*100+flag, bg within fg, no collisions below 100 rows). UNBOUNDED "
              "theorems for the partner-based builders (CoupleSpec.v: for tables of any size with unique non-negative p_ids and symmetric "
              "partner pointers, two rows share an eg / ehe / sn id exactly when they are the same person or point to each other (sn: and "
-             "both are jointly assessed); hence the partitions are row-order free; hypotheses evaluated on every U3 table). Bounded "
+             "both are jointly assessed); FgSpec.v: two rows share an fg id exactly when their family heads — the person, or a co-resident "
+             "parent of an eligible child — are the same person or partners (loop invariant over the dictionary builder); hence the "
+             "partitions are row-order free; decidable hypotheses evaluated on every U3 table). Bounded "
              "exhaustive theorems discharged by vm_compute on every run: for every well-formed pointer structure of up to 3 persons and "
              "every row order, fg/eg/ehe/sn partitions equal the reference partition (connected components of the unit definitions), "
              "with a proved refutation of the unrepaired fg builder. U3 ties the model to groupings.py (ids equal, numbering included) "
              "and checks the real builders against an independent reference exhaustively up to 3 (thorough 4) persons in all orders.",
-        technique="Coq proof (general for wthh/bg/eg/ehe/sn; bounded-exhaustive vm_compute for fg) + exhaustive differential correspondence U3",
+        technique="Coq proof (unbounded for wthh/bg/eg/ehe/sn/fg; bounded-exhaustive vm_compute against the reference partition) + exhaustive differential correspondence U3",
         design="6/C12"),
     "C13": dict(
         text="Theorems (exact rational arithmetic): the documented factors; round trip = identity; composition; conversion commutes with "
